@@ -436,8 +436,9 @@ impl CodeGenerator {
             IRNode::Map {
                 input, projection, ..
             } => {
-                // For Map, check if output is binary
-                if projection.len() != 2 {
+                // For Map, the projection must be the identity on a binary relation:
+                // tc(Y, X) <- edge(X, Y) is not the base case of plain transitive closure
+                if projection.as_slice() != [0, 1] {
                     return None;
                 }
                 match input.as_ref() {
@@ -472,8 +473,12 @@ impl CodeGenerator {
                 // Check left side scans edge relation
                 let left_scans_edge = match left.as_ref() {
                     IRNode::Scan { relation, .. } => relation == &edge_relation,
-                    IRNode::Map { input, .. } => match input.as_ref() {
-                        IRNode::Scan { relation, .. } => relation == &edge_relation,
+                    IRNode::Map {
+                        input, projection, ..
+                    } => match input.as_ref() {
+                        IRNode::Scan { relation, .. } => {
+                            relation == &edge_relation && projection.as_slice() == [0, 1]
+                        }
                         _ => false,
                     },
                     _ => false,
@@ -482,8 +487,12 @@ impl CodeGenerator {
                 // Check right side scans recursive relation
                 let right_scans_recursive = match right.as_ref() {
                     IRNode::Scan { relation, .. } => relation == recursive_rel,
-                    IRNode::Map { input, .. } => match input.as_ref() {
-                        IRNode::Scan { relation, .. } => relation == recursive_rel,
+                    IRNode::Map {
+                        input, projection, ..
+                    } => match input.as_ref() {
+                        IRNode::Scan { relation, .. } => {
+                            relation == recursive_rel && projection.as_slice() == [0, 1]
+                        }
                         _ => false,
                     },
                     _ => false,
@@ -498,8 +507,10 @@ impl CodeGenerator {
                     None
                 }
             }
-            // Also handle Map over Join (for projections)
-            IRNode::Map { input, .. } => match input.as_ref() {
+            // Map over Join: the projection must keep (edge.col0, recursive.col1) = columns 0 and 2
+            IRNode::Map {
+                input, projection, ..
+            } if projection.as_slice() == [0, 2] => match input.as_ref() {
                 IRNode::Join {
                     left,
                     right,
